@@ -13,8 +13,13 @@ import LibfiberVerif.Model.DistFifo
 import LibfiberVerif.Model.Stack
 import LibfiberVerif.Model.Sched
 import LibfiberVerif.Model.Mutex
+import LibfiberVerif.Model.Cond
+import LibfiberVerif.Model.Join
+import LibfiberVerif.Model.Rt
+import LibfiberVerif.Model.Sem
 import LibfiberVerif.Model.Barrier
 import LibfiberVerif.Model.RwLock
+import LibfiberVerif.Model.Sleep
 import LibfiberVerif.Model.Spin
 import LibfiberVerif.Model.WorkQueue
 import LibfiberVerif.Model.Wsd
@@ -30,9 +35,13 @@ def registry : List (String × (List String → IO UInt32)) := [
   ("DistFifo", DistFifo.drive),
   ("Stack", Stack.drive),
   ("Sched", Sched.drive),
-  ("Mutex", Mutex.drive),
+  ("Mutex", Mutex.drive), ("Cond", Cond.drive),
+  ("Join", Join.drive),
+  ("Rt", Rt.drive),
+  ("Sem", Sem.drive),
   ("Barrier", Barrier.drive),
   ("RwLock", RwLock.drive),
+  ("Sleep", Sleep.drive),
   ("Spin", Spin.drive),
   ("WorkQueue", WorkQueue.drive),
   ("Wsd", Wsd.drive)
